@@ -1,6 +1,7 @@
 package h
 
 import (
+	"strings"
 	"bufio"
 	"encoding/binary"
 	"encoding/json"
@@ -42,6 +43,12 @@ func scenarioC04(rc *RunCtx) {
 	if !isColdChild() {
 		nWarm = t.Int("c04.warmups", 0, 3)
 		spawnCold = t.Chance("c04.cold", map[string]int{"quick": 6, "thorough": 12}[rc.Tier])
+	}
+
+	if !isColdChild() && strings.Contains(prog.String(), "matching(5)") != strings.Contains(prog.String(), "matching(6)") {
+		// one of two look-alike regexps: whether earlier runs of this process used the other one must not matter
+		spawnCold = spawnCold || t.Chance("c04.cold_lookalike", 60)
+		rc.Inc("probe.lookalike_regexp_program")
 	}
 
 	// prior history in this process: other checks, generators, label caches
